@@ -8,7 +8,7 @@
      - the outgoing store (and the resend list) hold id-bearing packets only. *)
 From Coq Require Import List NArith Bool Lia ZArith ZifyN ZifyBool.
 From GM Require Import Base.Lts Codec.Packet Session.Ids Session.Store Session.StoreProofs
-  Broker.Conn Broker.ConnSpec Broker.ConnBase Broker.ConnProofsC0.
+  Broker.Conn Broker.ConnSpec Broker.ConnBase Broker.ConnProofsCDefs Broker.ConnProofsC0.
 Import ListNotations.
 Open Scope N_scope.
 
@@ -127,9 +127,6 @@ Definition pre_loop (p : ppc) : bool :=
   | PFirst | PAuth _ | PDeny | PSetup _ | PConnack _ _ | PAll | PResend _ | PRestore => true
   | _ => false
   end.
-
-Definition deq_busy (d : dpc) : bool :=
-  match d with DWait | DNextId _ _ | DSave _ _ | DBackAck _ | DSend _ => true | _ => false end.
 
 Definition dp_shape (d : dpc) : Prop :=
   match d with
